@@ -1,7 +1,7 @@
 #!/bin/sh
 # usage: tools/seed_eval.sh <seed-id> <property> [src-dir]   e.g. tools/seed_eval.sh C01_1 C01 /tmp/seed_out/C01_1
 # 1. confirms the seeded change in a scratch worktree (suite passes, demo fails with / passes without)
-# 2. runs ./check <property> against /repo with the patch applied, then reverts
+# 2. runs ./check <property> against a scratch copy of /repo with the patch applied (/repo itself is not touched)
 ID=$1; PROP=$2; SRC=${3:-/verif/seeded/$ID}
 OUT=/verif/seeded/$ID
 mkdir -p $OUT
@@ -20,9 +20,9 @@ PYTHONPATH=$WT /venv/bin/python $OUT/demo.py >/dev/null 2>&1; DEMO_WITHOUT=$?
 cd /; git -C /repo worktree remove --force $WT
 echo "$ID suite: $SUITE | demo with=$DEMO_WITH without=$DEMO_WITHOUT"
 cd /verif
-git -C /repo apply $OUT/patch.diff || { echo "cannot apply to /repo"; exit 7; }
-./check $PROP > $OUT/check_output.txt 2>&1; RC=$?
-git -C /repo checkout -- .
+tools/scratch_check.sh $OUT/patch.diff $PROP > $OUT/check_output.txt 2>&1
+sed -i 's#/tmp/pyvc_scr\.[A-Za-z0-9]*/##' $OUT/check_output.txt
+RC=$(grep -q '^VIOLATION' $OUT/check_output.txt && echo 1 || echo 0)
 NV=$(grep -c '^VIOLATION' $OUT/check_output.txt)
 NU=$(grep -c '^UNDECIDED' $OUT/check_output.txt)
 echo "$ID check $PROP exit=$RC violations=$NV undecided=$NU"
@@ -33,8 +33,8 @@ i, prop, suite, dw, dwo, rc, nv, nu = sys.argv[1:]
 p = '/verif/seeded/%s/meta.json' % i
 m = json.load(open(p)) if os.path.exists(p) else {}
 m.update({'id': i, 'breaks_property': prop, 'confirmed': {'suite_with_change': suite, 'demo_exit_with_change': int(dw), 'demo_exit_without_change': int(dwo)},
-          'check': {'cmd': './check %s' % prop, 'exit': int(rc), 'violations': int(nv), 'undecided': int(nu)},
+          'check': {'cmd': 'tools/scratch_check.sh patch.diff %s' % prop, 'exit': int(rc), 'violations': int(nv), 'undecided': int(nu)},
           'ran': ['git apply patch.diff in a scratch worktree; pytest pgradd/tests; demo.py with and without the change',
-                  'git -C /repo apply patch.diff; ./check %s; git -C /repo checkout -- .' % prop]})
+                  'tools/scratch_check.sh patch.diff %s  (scratch copy of /repo with the patch)' % prop]})
 json.dump(m, open(p, 'w'), indent=1)
 PY
